@@ -35,7 +35,7 @@ TabChoices == {<<>>, <<9>>, <<32, 32>>, <<9, 9>>, <<32, 32, 32, 32>>}
 InvQuotedRef == Roundtrips(QuotedRef(text), text)
 InvDescRef   == \A tabs \in TabChoices : Roundtrips(DescRef(text, tabs), text)
 InvBlockRef  == \A tabs \in TabChoices : BlockSafe(text) => Roundtrips(BlockRef(text, tabs), text)
-InvReasonDev == Roundtrips(ReasonDev(text), text) <=> ~ReasonTrigger(text)
+InvReasonToday == Roundtrips(ReasonToday(text), text)
 InvDescDev   == \A tabs \in TabChoices : \A single \in BOOLEAN :
                   Roundtrips(DescDev(text, tabs, single), text) <=> ~DescTrigger(text, single)
 InvSpecifiedByDev == Roundtrips(SpecifiedByDev(text), text) <=> ~SpecifiedByTrigger(text)
@@ -82,7 +82,15 @@ Opts(single, indent, spec) ==
   [sorted_fields |-> FALSE, sorted_arguments |-> FALSE, sorted_enum_items |-> FALSE, federation |-> FALSE,
    prefer_single_line_descriptions |-> single, include_specified_by |-> spec, compose_directive |-> FALSE, indent |-> indent]
 Emit ==
-  /\ (IF n # 0 THEN TRUE ELSE PrintT(<<"BASE", ToJson(Base("none", <<>>))>>))      \* the base type system itself, for the option sweep
+  \* the base type system itself and its federation variants (entities O; O and interface I; federation
+  \* enabled without entities), for the option sweep
+  /\ (IF n # 0 THEN TRUE
+      ELSE LET b == Base("none", <<>>)
+               keyed(ts, nm) == [ts EXCEPT !.types[nm] = Ext(@, "keys", <<"f">>)]
+           IN /\ PrintT(<<"BASE", "plain", ToJson(b)>>)
+              /\ PrintT(<<"BASE", "fedO", ToJson(Ext(keyed(b, "O"), "federation", [entities |-> <<"O">>]))>>)
+              /\ PrintT(<<"BASE", "fedIO", ToJson(Ext(keyed(keyed(b, "O"), "I"), "federation", [entities |-> <<"I", "O">>]))>>)
+              /\ PrintT(<<"BASE", "fedNone", ToJson(Ext(b, "federation", [entities |-> <<>>]))>>))
   /\ \A slot \in DescSlots : \A single \in BOOLEAN : \A indent \in (IF single THEN {0} ELSE {0, 2}) :
        PrintT(<<"REPLAY", ToJson([slot |-> slot, opts |-> Opts(single, indent, FALSE), ts |-> Base(slot, text)])>>)
   /\ \A slot \in OtherSlots :
